@@ -27,7 +27,7 @@ from dask.core import flatten
 from .core import Chooser, Digest, HarnessError
 from .kernel import Deadlock, Kernel, activate
 
-_HEX = re.compile(r"-[0-9a-f]{32}\b|-[0-9a-f]{8}-[0-9a-f]{4}-[0-9a-f]{4}-[0-9a-f]{4}-[0-9a-f]{12}\b")
+_HEX = re.compile(r"-?[0-9a-f]{8}-[0-9a-f]{4}-[0-9a-f]{4}-[0-9a-f]{4}-[0-9a-f]{12}|-?[0-9a-f]{16,}")
 
 
 def _layer_of(key: Any) -> str:
